@@ -8,6 +8,7 @@
 """
 
 import abc
+import copy
 import warnings
 from functools import partial
 from multiprocessing import Value, Lock
@@ -710,11 +711,11 @@ class SurfaceContainer(AbstractContainer):
         v_offset = 0
         f_offset = 0
         for elem in self._elements:
-            v = elem.vertices
+            # Renumber copies; the vertices and faces of the elements keep their own numbering
+            v, f = copy.deepcopy((elem.vertices, elem.faces))
             for i in range(len(v)):
                 v[i].id += v_offset
             verts += v
-            f = elem.faces
             for i in range(len(f)):
                 f[i].id += f_offset
                 # for j in range(len(f[i]._data)):
